@@ -331,3 +331,110 @@ Proof.
     apply inj_on_scalar. destruct k as [|[|k]]; [| | simpl in Hk; lia];
       intro H; apply (f_equal this) in H; vm_compute in H; discriminate.
 Qed.
+
+(* ================= backward Euler is defined; the pipeline is linear in the data ================= *)
+Section More.
+Variable P : Type.
+Variable I : Type.
+Variable solver : nat -> qm -> qv -> sret I.
+Variable form : P -> Qc -> qm * qv * qv.
+
+Lemma be_loop_defined p : forall rest k t u info0,
+  (forall s, wf_sys (length u) (fA P form p s) (fbn P form p s (length u)) = true) ->
+  (forall k' M r, length r = length u -> length (sret_sol (solver k' M r)) = length u) ->
+  exists ls ie, be_loop P I solver form p k t rest u info0 = Ok (ls, ie).
+Proof.
+  induction rest as [|t' rest IH]; intros k t u info0 Hw Hs; simpl; [eexists; eexists; reflexivity|].
+  pose proof (Hw t') as Hwt. unfold fbn, fA, fb in Hwt. destruct (form p t') as [[A b0] c] eqn:Ef. cbn [fst snd] in Hwt. cbn zeta. rewrite Hwt.
+  unfold solve_linear_system.
+  set (M := msub (eye (length u)) (mscale (t' - t) A)). set (r := qvadd u (qvscale (t' - t) (bc (length u) b0))).
+  assert (Lr : length r = length u).
+  { unfold r. apply wf_sys_spec in Hwt as [_ [_ Hb]]. rewrite qvadd_length; [reflexivity|]. rewrite qvscale_length. symmetry; exact Hb. }
+  pose proof (Hs k M r Lr) as Lx. unfold sret_sol in Lx.
+  destruct (split_ret (solver k M r)) as [u' i'] eqn:Es. cbn [fst] in Lx. rewrite Lx, Nat.eqb_refl.
+  destruct (IH (S k) t' u' i') as [ls [ie Hls]].
+  - rewrite Lx. exact Hw.
+  - intros k' M' r' Hr'. rewrite Lx in *. apply Hs. exact Hr'.
+  - rewrite Hls. eexists; eexists; reflexivity.
+Qed.
+
+(* backward Euler returns (for the repaired single-level case: any non-empty grid; for the code as it was: at least two levels)
+   whenever every assembled system has the size of the initial condition and the solver returns vectors of that size *)
+Theorem backward_euler_defined Q p t0 t1 rest :
+  (forall s, wf_sys (length (fic P form p t0)) (fA P form p s) (fbn P form p s (length (fic P form p t0))) = true) ->
+  (forall k M r, length r = length (fic P form p t0) -> length (sret_sol (solver k M r)) = length (fic P form p t0)) ->
+  exists levels info, td_solve P I solver form Q MBwd (Some p) (t0 :: t1 :: rest) = Ok (levels, info).
+Proof.
+  intros Hw Hs. unfold td_solve. unfold fic in *. destruct (form p t0) as [[A0 b0] ic] eqn:E0. cbn [snd] in Hw, Hs.
+  cbn [effective_method]. destruct (be_loop_defined p (t1 :: rest) 0 t0 ic None Hw Hs) as [ls [ie Hls]].
+  rewrite Hls. eexists; eexists; reflexivity.
+Qed.
+End More.
+
+(* PDEModel's forward map is affine in the parameter when the parameter enters only through source and initial condition
+   (forward Euler, equal grids, final-time observation, no observation map): forward(p1) - forward(p2) is the forward value of
+   the difference problem -- the fact a constant Jacobian of such a model has to reproduce *)
+Theorem forward_pipeline_difference (P Pd I : Type) (solver : nat -> qm -> qv -> sret I) (form : P -> Qc -> qm * qv * qv)
+        (formd : Pd -> Qc -> qm * qv * qv) Q interp2 G times T (p1 p2 : P) (pd : Pd) prev1 prev2 prevd o1 o2 :
+  g_eq G = true -> last_opt times = Some T ->
+  (forall t n, fA P form p1 t = fA P form p2 t /\ fA Pd formd pd t = fA P form p1 t /\
+               fbn Pd formd pd t n = qvsub (fbn P form p1 t n) (fbn P form p2 t n) /\
+               fic Pd formd pd t = qvsub (fic P form p1 t) (fic P form p2 t)) ->
+  length (fic P form p1 (nth 0 times 0)) = length (fic P form p2 (nth 0 times 0)) ->
+  td_forward P I solver form Q None interp2 G MFwd times [T] prev1 p1 = Ok (A1 o1) ->
+  td_forward P I solver form Q None interp2 G MFwd times [T] prev2 p2 = Ok (A1 o2) ->
+  (2 <= length o1)%nat -> length o1 = length o2 ->
+  td_forward Pd I solver formd Q None interp2 G MFwd times [T] prevd pd = Ok (A1 (qvsub o1 o2)).
+Proof.
+  intros Hg HT Hf HL H1 H2 Hlen Hlen2.
+  unfold td_forward, td_assemble in *.
+  destruct (td_solve P I solver form Q MFwd (Some p1) times) as [[l1 i1]|e1] eqn:S1; [|discriminate].
+  destruct (td_solve P I solver form Q MFwd (Some p2) times) as [[l2 i2]|e2] eqn:S2; [|discriminate].
+  rewrite (forward_euler_difference P I solver form Pd formd Q p1 p2 pd times l1 l2 i1 i2 Hf HL S1 S2).
+  destruct (forward_euler P I solver form Q p1 times l1 i1 S1) as [_ [L1 _]].
+  destruct (forward_euler P I solver form Q p2 times l2 i2 S2) as [_ [L2 _]].
+  assert (Hlast : forall (a b : list qv), length a = length b -> forall x y, last_opt a = Some x -> last_opt b = Some y ->
+                  last_opt (map2 qvsub a b) = Some (qvsub x y)).
+  { induction a as [|a0 a IH]; intros [|b0 b] HLab x y Hx Hy; simpl in *; try discriminate.
+    destruct a as [|a1 a]; destruct b as [|b1 b]; simpl in HLab; try lia.
+    - inversion Hx; inversion Hy; subst. reflexivity.
+    - simpl. apply (IH (b1 :: b)); [simpl; lia | exact Hx | exact Hy]. }
+  destruct (last_opt l1) as [u1|] eqn:E1.
+  2:{ rewrite (observe_restriction_none Q None interp2 G times T l1 Hg HT E1) in H1. discriminate. }
+  destruct (last_opt l2) as [u2|] eqn:E2.
+  2:{ rewrite (observe_restriction_none Q None interp2 G times T l2 Hg HT E2) in H2. discriminate. }
+  rewrite (observe_restriction Q None interp2 G times T l1 u1 Hg HT E1) in H1.
+  rewrite (observe_restriction Q None interp2 G times T l2 u2 Hg HT E2) in H2.
+  rewrite (observe_restriction Q None interp2 G times T (map2 qvsub l1 l2) (qvsub u1 u2) Hg HT
+             (Hlast l1 l2 (eq_trans L1 (eq_sym L2)) u1 u2 E1 E2)).
+  cbn [apply_obsmap] in *.
+  assert (Hsq : forall v w : qv, squeeze (A1 v) = A1 w -> (2 <= length w)%nat -> v = w).
+  { intros v w Hs Hw. destruct v as [|x [|y v]]; simpl in Hs; inversion Hs; subst; simpl in Hw; try lia; reflexivity. }
+  inversion H1 as [H1']. inversion H2 as [H2'].
+  pose proof (Hsq u1 o1 H1' Hlen) as ->. pose proof (Hsq u2 o2 H2' ltac:(lia)) as ->.
+  assert (Lq : (2 <= length (qvsub o1 o2))%nat) by (rewrite qvsub_length; lia).
+  destruct (qvsub o1 o2) as [|x [|y r]] eqn:Eq; simpl in Lq; try lia. reflexivity.
+Qed.
+
+(* non-vacuity of C18_forward_pipeline_linear_in_data: the 2-node heat problem with the parameter as initial condition *)
+Definition exd_form (p : qv) (t : Qc) : qm * qv * qv :=
+  ([[qc (-2 # 1); qc (1 # 1)]; [qc (1 # 1); qc (-2 # 1)]], [qc (0 # 1); qc (0 # 1)], p).
+
+Example ex_pipeline_hypotheses :
+  let times := [qc (0 # 1); qc (1 # 4); qc (3 # 4)] in
+  let p1 := [qc (4 # 1); qc (8 # 1)] in let p2 := [qc (1 # 1); qc (-2 # 1)] in
+  let G := init_grids None None in
+  (forall t n, fA qv ex_form p1 t = fA qv ex_form p2 t /\ fA qv exd_form (qvsub p1 p2) t = fA qv ex_form p1 t /\
+               fbn qv exd_form (qvsub p1 p2) t n = qvsub (fbn qv ex_form p1 t n) (fbn qv ex_form p2 t n) /\
+               fic qv exd_form (qvsub p1 p2) t = qvsub (fic qv ex_form p1 t) (fic qv ex_form p2 t)) /\
+  g_eq G = true /\ last_opt times = Some (qc (3 # 4)) /\
+  exists o1 o2, td_forward qv Z ex_solver ex_form quirks_fixed None const_interp2 G MFwd times [qc (3 # 4)] None p1 = Ok (A1 o1) /\
+                td_forward qv Z ex_solver ex_form quirks_fixed None const_interp2 G MFwd times [qc (3 # 4)] None p2 = Ok (A1 o2) /\
+                (2 <= length o1)%nat /\ length o1 = length o2.
+Proof.
+  cbn zeta. split.
+  - intros t n. unfold fA, fbn, fb, fic, ex_form, exd_form. cbn [fst snd bc]. repeat split.
+    unfold qvsub. cbn [vsub]. change (qc (0 # 1)) with 0%Qc. repeat (f_equal; try ring).
+  - split; [reflexivity|]. split; [reflexivity|].
+    eexists. eexists. split; [vm_compute; reflexivity|]. split; [vm_compute; reflexivity|]. split; [simpl; lia | reflexivity].
+Qed.
